@@ -346,15 +346,72 @@ def c11_4(ctx: Ctx) -> RuleResult:
     for q, members in (("ropt.results._function_results.FunctionResults", ("evaluations", "functions", "constraint_info")), ("ropt.results._gradient_results.GradientResults", ("evaluations", "gradients"))):
         c = ctx.repo.cls(q)
         m = c.methods.get("transform_from_optimizer")
-        # every member is back-transformed with the transforms this method received; realizations are kept
-        mcalls = [X.at(m, c_) for c_ in calls_in(m)] if m else []
-        tp = ("param", m.qualname, m.positional[1]) if m and len(m.positional) > 1 else None
+        # on every return: every member is back-transformed with the transforms this method received (a member that can be
+        # None only where it is None), realizations are kept.  The returned object is a constructor call of the class or
+        # `dataclasses.replace(self, ...)` (fields that are not named keep the value of self).
+        if m is None:
+            res.add(None, c.node, f"{c.name} has a transform_from_optimizer method", False, construct=f"{c.name}: delegates", where=c.module.relpath, fname=c.qualname)
+            continue
+        from ..util import bool_nnf, path_condition
+
+        tp = ("param", m.qualname, m.positional[1]) if len(m.positional) > 1 else None
+        sp = ("param", m.qualname, m.positional[0])
+        verdict = {mem: [] for mem in members + ("realizations",)}
+        n_ret = 0
+        for r_ in nodes_in(m, ast.Return):
+            if r_.value is None:
+                continue
+            rt = X.force_inline(X.at(m, r_.value), m)
+            pc = path_condition(ctx, m, r_)
+            lits = []
+            if pc:
+                g_ = bool_nnf(("bool", "and", tuple(c_ if p_ else ("unary", "not", c_) for c_, p_ in pc)))
+                lits = [(it[1], it[2]) for it in (g_[1] if g_[0] == "and" else [g_]) if it[0] == "lit"]
+            for alt in (rt[1] if rt[0] == "phi" else [rt]):
+                if alt[0] != "call":
+                    continue
+                if alt[1] == ("global", "dataclasses.replace") and alt[2] and alt[2][0] == sp:
+                    kw = {fld: ("attr", sp, fld) for fld in c.fields}
+                    kw.update(dict(alt[3]))
+                elif alt[1] == ("global", c.qualname):
+                    kw = dict(alt[3])
+                else:
+                    continue
+                n_ret += 1
+
+                def is_none_of(cond, mem):
+                    """polarity under which `cond` says self.<mem> is None (None: cond is about something else)"""
+                    from ..util import norm_cond
+
+                    a_, p_ = norm_cond(cond)
+                    if a_[0] == "cmp" and a_[1] == "is" and a_[3] == ("const", None) and a_[2] == ("attr", sp, mem):
+                        return p_
+                    return None
+
+                def member_ok(v, mem, none_known: bool) -> bool:
+                    if v is None:
+                        return False
+                    if v[0] == "phi":
+                        return all(member_ok(x, mem, none_known) for x in v[1])
+                    if v[0] == "ifexp":
+                        pol = is_none_of(v[1], mem)
+                        if pol is None:
+                            return member_ok(v[2], mem, none_known) and member_ok(v[3], mem, none_known)
+                        return member_ok(v[2], mem, pol) and member_ok(v[3], mem, not pol)
+                    if v == ("const", None) or v == ("attr", sp, mem):
+                        return none_known  # passing None on / keeping the member is right only where the member is None
+                    return (v[0] == "call" and v[1][0] == "attr" and v[1][2] == "transform_from_optimizer" and v[1][1] == ("attr", sp, mem)
+                            and bool(v[2]) and v[2][0] == tp)
+
+                for mem in members:
+                    known_none = any(p_ and a_[0] == "cmp" and a_[1] == "is" and a_[3] == ("const", None) and a_[2] == ("attr", sp, mem) for a_, p_ in lits)
+                    verdict[mem].append(member_ok(kw.get(mem), mem, known_none))
+                verdict["realizations"].append(kw.get("realizations") == ("attr", sp, "realizations"))
         for mem in members:
-            ok = any(t[0] == "call" and t[1][0] == "attr" and t[1][2] == "transform_from_optimizer" and ends_with_attrs(t[1][1], mem) and root_of(t[1][1])[0] == "param"
-                     and t[2] and t[2][0] == tp for t in mcalls)
-            res.add(m, m.node if m else c.node, f"{c.name} back-transforms its `{mem}`", ok, "" if ok else f"`{mem}` is passed on untransformed", construct=f"{c.name}: delegates {mem}")
-        ok = any(t[0] == "call" and any(k == "realizations" and v[0] == "attr" and v[2] == "realizations" and v[1][0] == "param" for k, v in t[3]) for t in mcalls)
-        res.add(m, m.node if m else c.node, f"{c.name} keeps `realizations` (domain independent)", ok, construct=f"{c.name}: realizations kept")
+            ok = bool(verdict[mem]) and all(verdict[mem])
+            res.add(m, m.node, f"{c.name} back-transforms its `{mem}`", ok, "" if ok else f"`{mem}` is passed on untransformed (on some return of the method)", construct=f"{c.name}: delegates {mem}")
+        ok = bool(verdict["realizations"]) and all(verdict["realizations"])
+        res.add(m, m.node, f"{c.name} keeps `realizations` (domain independent)", ok, construct=f"{c.name}: realizations kept")
     if n_cls < 4:
         raise AnalysisError(f"expected four result field classes with transform_from_optimizer, found {n_cls}")
     res.floor = 14
